@@ -25,6 +25,7 @@ REPO = os.environ.get("VERIF_REPO", "/repo")
 BUILD = os.path.join(VERIF, ".build")
 LEAN = os.path.join(VERIF, "lean")
 HARNESS_BIN = os.path.join(BUILD, "waspharness")
+COVER_BIN = os.path.join(BUILD, "waspharness-cover")
 EXTRACT_BIN = os.path.join(BUILD, "waspextract")
 MODEL_BIN = os.path.join(LEAN, ".lake", "build", "bin", "waspmodel")
 GOENV = dict(GOFLAGS="-mod=mod", GOPROXY="off", GOSUMDB="off", GOTOOLCHAIN="local",
@@ -201,16 +202,20 @@ class Check:
             shutil.copy(os.path.join(REPO, "go.sum"), os.path.join(src, "go.sum"))
         except OSError:
             pass
-        # statement-coverage counters for every package of the repository (evidence: which code the suites reached)
-        rc, out, err = run(["go", "build", "-tags", "verif", "-cover", "-covermode=atomic",
-                            "-coverpkg=waspharness,github.com/vx-labs/wasp/v4/...", "-o", HARNESS_BIN, "."], cwd=src, timeout=900)
-        if rc != 0:
-            rc, out, err = run(["go", "build", "-tags", "verif", "-o", HARNESS_BIN, "."], cwd=src, timeout=900)
+        rc, out, err = run(["go", "build", "-tags", "verif", "-o", HARNESS_BIN, "."], cwd=src, timeout=900)
         ob.ok = rc == 0
         self.harness_ok = ob.ok
+        # a SECOND binary with statement-coverage counters for every package of the repository. It is only used to
+        # measure which code the suites reach (its answers are discarded): coverage instrumentation changes what is
+        # compiled (observed: a shared `for` loop variable becomes per-iteration), so it must never judge.
         self.covdir = os.path.join(BUILD, "cov", f"{self.pid}-{self.tier}-{self.seed}")
         shutil.rmtree(self.covdir, ignore_errors=True)
         os.makedirs(self.covdir, exist_ok=True)
+        self.cover_ok = False
+        if rc == 0:
+            rc2, _, _ = run(["go", "build", "-tags", "verif", "-cover", "-covermode=atomic",
+                             "-coverpkg=waspharness,github.com/vx-labs/wasp/v4/...", "-o", COVER_BIN, "."], cwd=src, timeout=900)
+            self.cover_ok = rc2 == 0
         if rc != 0:
             ob.detail = err[-600:]
             self.broken.append((ob.name, "the harness no longer builds against the working tree: " + err[-400:]))
@@ -234,7 +239,16 @@ class Check:
             if not os.path.exists(path):
                 continue
             ns = []
+            incomment = False
             for line in open(path):
+                # skip block / doc comments (a comment line may well start with the word "theorem")
+                if incomment:
+                    if "-/" in line:
+                        incomment = False
+                    continue
+                if "/-" in line and "-/" not in line[line.index("/-"):]:
+                    incomment = True
+                    line = line[:line.index("/-")]
                 mm = re.match(r"\s*namespace\s+(\S+)", line)
                 if mm:
                     ns.append(mm.group(1))
@@ -335,7 +349,7 @@ class Check:
         try:
             p = subprocess.run([binary, domain] + list(args), input=data, stdout=subprocess.PIPE, stderr=subprocess.PIPE,
                                text=True, timeout=timeout,
-                               env=dict(os.environ, GOMEMLIMIT="4GiB", **({"GOCOVERDIR": self.covdir} if getattr(self, "covdir", None) and binary == HARNESS_BIN else {}),
+                               env=dict(os.environ, GOMEMLIMIT="4GiB", **({"GOCOVERDIR": self.covdir} if getattr(self, "covdir", None) and binary == COVER_BIN else {}),
                                         **(env or {})), preexec_fn=limits)
         except subprocess.TimeoutExpired as e:
             out = e.stdout.decode() if isinstance(e.stdout, bytes) else (e.stdout or "")
@@ -364,6 +378,9 @@ class Check:
             return
         impl, st = self._exec(suite.binary or HARNESS_BIN, suite.domain, suite.args, suite.ops, timeout, suite.env)
         rec["impl_status"] = st
+        if getattr(self, "cover_ok", False) and suite.binary is None and st == "ok" and (self.tier != "quick" or time.time() - t < 6):
+            # coverage pass (answers discarded)
+            self._exec(COVER_BIN, suite.domain, suite.args, suite.ops, max(60, int(3 * (time.time() - t)) + 30), suite.env)
         if st != "ok" or len(impl) != len(suite.ops):
             # the process died (crash / timeout): the op after the last answered one is the suspect
             idx = min(len(impl), len(suite.ops) - 1)
